@@ -24,6 +24,185 @@ def names(axis):
     return [l.name() for l in axis]
 
 
+def _loop_range(it):
+    """range(a) / range(a, b) / reversed(range(..)) -> (first, last, step) as affine expressions, else None"""
+    from ..affine import Affine, try_affine
+    desc = False
+    if isinstance(it, ast.Call) and norm(it.func) == 'reversed' and len(it.args) == 1:
+        desc, it = True, it.args[0]
+    if not (isinstance(it, ast.Call) and norm(it.func) == 'range' and 1 <= len(it.args) <= 2 and not it.keywords):
+        return None
+    ra = [try_affine(a) for a in it.args]
+    if any(a is None for a in ra):
+        return None
+    lo, hi = (Affine.const(0), ra[0]) if len(ra) == 1 else (ra[0], ra[1])
+    one = Affine.const(1)
+    return (hi - one, lo, -1) if desc else (lo, hi - one, 1)
+
+
+class _SubstIndex(ast.NodeTransformer):
+    """replace the loop variable by an affine expression inside subscripts (indices are re-normalised)"""
+
+    def __init__(self, var, val):
+        self.var, self.val = var, val
+
+    def visit_Subscript(self, node):
+        from ..affine import try_affine
+        self.generic_visit(node)
+        a = try_affine(node.slice, {self.var: self.val})
+        if a is not None:
+            node = ast.Subscript(node.value, ast.parse(str(a), mode='eval').body, node.ctx)
+        return node
+
+
+def subst_index(e, var, val):
+    import copy
+    return ast.fix_missing_locations(_SubstIndex(var, val).visit(copy.deepcopy(e)))
+
+
+def label_stores(fn, obj):
+    """Every store `obj.qD[e] = value` of a function with the set of bonds it covers and the stored expression resolved
+    through local names.  A name is followed to its definition in the same block; a name whose value at the top of an
+    iteration comes from the previous iteration (`cur = nxt; nxt = f(i + 1)` with `nxt = f(0)` before the loop) is
+    resolved by induction over the loop.  Returns [(stmt, lo, hi, var or None, value expression or None)]."""
+    from ..affine import Affine, try_affine
+    out = []
+    top = list(fn.body)
+
+    def assigns_before(body, k, name):
+        for s_ in reversed(body[:k]):
+            if isinstance(s_, ast.Assign) and len(s_.targets) == 1 and isinstance(s_.targets[0], ast.Name) and \
+                    s_.targets[0].id == name:
+                return s_
+            if any(isinstance(n_, ast.Name) and n_.id == name and isinstance(n_.ctx, ast.Store) for n_ in ast.walk(s_)):
+                return False
+        return None
+
+    def resolve(e, body, k, loop, depth=0):
+        """value of expression e just before statement k of `body` (body of `loop`, or the function body)"""
+        if depth > 6:
+            return None
+        if not isinstance(e, ast.Name):
+            return e
+        d = assigns_before(body, k, e.id)
+        if d is False:
+            return None
+        if d is not None:
+            return resolve(d.value, body, body.index(d), loop, depth + 1)
+        if loop is None:
+            return None
+        # value at the top of the iteration: carried over from the previous one
+        rng = _loop_range(loop.iter)
+        later = [s_ for s_ in body if isinstance(s_, ast.Assign) and len(s_.targets) == 1 and
+                 isinstance(s_.targets[0], ast.Name) and s_.targets[0].id == e.id]
+        stores = [n_ for n_ in ast.walk(loop) if isinstance(n_, ast.Name) and n_.id == e.id and isinstance(n_.ctx, ast.Store)]
+        if rng is None or len(later) != 1 or len(stores) != 1 or not isinstance(loop.target, ast.Name):
+            return None
+        g = resolve(later[0].value, body, body.index(later[0]), None, depth + 1) if not isinstance(later[0].value, ast.Name) \
+            else None
+        if g is None:
+            return None
+        kk = top.index(loop) if loop in top else None
+        if kk is None:
+            return None
+        g0 = resolve(ast.Name(e.id, ast.Load()), top, kk, None, depth + 1)
+        if g0 is None:
+            return None
+        var = loop.target.id
+        first, _, step = rng
+        prev = subst_index(g, var, Affine.sym(var) - Affine.const(step))
+        if norm(subst_index(g, var, first - Affine.const(step))) != norm(subst_index(g0, var, Affine.sym(var))):
+            return None
+        return prev
+
+    def visit(body, loop):
+        for k, s_ in enumerate(body):
+            if isinstance(s_, ast.For) and loop is None:
+                visit(s_.body, s_)
+            elif isinstance(s_, ast.Assign):
+                for t in s_.targets:
+                    if isinstance(t, ast.Subscript) and norm(t.value) == f'{obj}.qD':
+                        val = resolve(s_.value, body, k, loop)
+                        if loop is None:
+                            a = try_affine(t.slice)
+                            if a is None and norm(t.slice) == '-1':
+                                a = Affine.sym('L')
+                            out.append((s_, a, a, None, val))
+                        else:
+                            rng = _loop_range(loop.iter)
+                            var = loop.target.id if isinstance(loop.target, ast.Name) else None
+                            a = try_affine(t.slice)
+                            if rng is None or var is None or a is None or a.coeff(var) not in (1, -1):
+                                out.append((s_, None, None, var, val))
+                                continue
+                            ends = sorted([a.subst(var, rng[0]), a.subst(var, rng[1])],
+                                          key=lambda z: (z - a.subst(var, rng[0])).c if (z - a.subst(var, rng[0])).is_const() else 0)
+                            x0, x1 = a.subst(var, rng[0]), a.subst(var, rng[1])
+                            lo, hi = (x0, x1) if (a.coeff(var) * rng[2]) > 0 else (x1, x0)
+                            # expression in terms of the bond index: var = (bond - const) / coeff
+                            if val is not None:
+                                c0 = a - Affine.sym(var).scale(a.coeff(var))
+                                val = subst_index(val, var, (Affine.sym('_b') - c0).scale(a.coeff(var)))
+                            out.append((s_, lo, hi, '_b', val))
+    visit(top, None)
+    return out
+
+
+def covers(intervals, lo, hi, facts):
+    """the union of [a, b] intervals (possibly empty ones) contains [lo, hi] under the facts (affine expressions >= 0)"""
+    from ..shapes import Ctx, nonneg
+    from ..affine import Affine
+    ctx = Ctx(list(facts), [])
+    one = Affine.const(1)
+    cur = lo
+    for _ in range(len(intervals) + 1):
+        if nonneg(cur - hi - one, ctx):
+            return True
+        nxt = [(a, b) for a, b in intervals if nonneg(cur - a, ctx) and nonneg(b - cur, ctx)]
+        if not nxt:
+            return False
+        best = nxt[0]
+        for a, b in nxt[1:]:
+            if nonneg(b - best[1], ctx):
+                best = (a, b)
+        cur = best[1] + one
+    return nonneg(cur - hi - one, ctx)
+
+
+def product_site_value(repo, q):
+    """leg-domain value of the site tensor built in the site loop of apply_operator / multiply_mpo:
+    (fi, loop, TVal | None, error text, (name of first operand tensor, name of second))"""
+    from ..canon import canonical, ARITH_VALUE_ROLES
+    if q == 'operation.apply_operator':
+        fi = repo.func(q)
+        a, b, res = 'op', 'psi', None
+    else:
+        fi = canonical(repo.func(q), ARITH_VALUE_ROLES)
+        a, b = 'op0', 'op1'
+        rets = [r_ for r_ in ast.walk(fi.node) if isinstance(r_, ast.Return) and isinstance(r_.value, ast.Name)]
+        res = rets[0].value.id if len(rets) == 1 else 'op'
+    loops = [l for l in fi.node.body if isinstance(l, ast.For) and isinstance(l.target, ast.Name) and
+             any(isinstance(n_, ast.Subscript) and norm(n_) == f'{a}.A[{l.target.id}]' for n_ in ast.walk(l))]
+    if len(loops) != 1:
+        raise AnalysisError(f'{q}: site loop not found')
+    i = loops[0].target.id
+    mk = lr.mps_site if q == 'operation.apply_operator' else lr.mpo_site
+    env = {f'@{a}.A[{i}]': lr.mpo_site(f'{a}.A[{i}]', f'{a}.qd', f'{a}.qD[{i}]', f'{a}.qD[{i} + 1]'),
+           f'@{b}.A[{i}]': mk(f'{b}.A[{i}]', f'{b}.qd', f'{b}.qD[{i}]', f'{b}.qD[{i} + 1]')}
+    body = [s_ for s_ in loops[0].body if not isinstance(s_, ast.Assert)]
+    try:
+        it = LegInterp(fi, env, repo=repo, body=body)
+        it.run()
+    except LegError as ex:
+        return fi, loops[0], None, str(ex), (f'{a}.A[{i}]', f'{b}.A[{i}]')
+    if res is not None:
+        v = it.env.get(f'@{res}.A[{i}]')
+    else:
+        vs = [v_ for k_, v_ in it.env.items() if k_.startswith('@') and k_ not in env and isinstance(v_, TVal)]
+        v = vs[0] if len(vs) == 1 else None
+    return fi, loops[0], (v if isinstance(v, TVal) else None), 'site tensor not found', (f'{a}.A[{i}]', f'{b}.A[{i}]')
+
+
 def product_rules(chk, repo, rid):
     n = 0
     # ---------------- apply_operator
@@ -85,7 +264,7 @@ def product_rules(chk, repo, rid):
     rets = [r_ for r_ in ast.walk(fi.node) if isinstance(r_, ast.Return) and isinstance(r_.value, ast.Name)]
     resn = rets[0].value.id if len(rets) == 1 else 'op'
     loop = [l for l in fi.node.body if isinstance(l, ast.For) and any(
-        isinstance(c, ast.Call) and norm(c.func) == 'np.tensordot' for c in ast.walk(l))]
+        isinstance(s_, ast.Assign) and norm(s_.targets[0]).startswith(f'{resn}.A[') for s_ in ast.walk(l))]
     if len(loop) != 1:
         raise AnalysisError('multiply_mpo: site loop not found')
     i = norm(loop[0].target)
@@ -109,22 +288,35 @@ def product_rules(chk, repo, rid):
         c = lg.canon(v)
         chk.ob(rid, w, 'multiply_mpo: the in-leg of op0 is contracted with the out-leg of op1 (op0 @ op1)',
                c['pairs'] == [tuple(sorted((f'{X}.1', f'{Y}.0')))], f'{c["pairs"]}', key=f'{rid}|multiply|pair')
-        lab = [s for l in fi.node.body if isinstance(l, ast.For) for s in l.body if isinstance(s, ast.Assign) and
-               norm(s.targets[0]).startswith(f'{resn}.qD[')]
-        okl = False
-        detail = ''
-        if len(lab) == 1 and v.rank == 4:
-            lp = [l for l in fi.node.body if isinstance(l, ast.For) and lab[0] in l.body][0]
-            var = norm(lp.target)
-            b = pmatch('qnumber_flatten([__a, __b])', lab[0].value) or pmatch('qnumber_flatten((__a, __b))', lab[0].value)
-            if b is not None:
-                left = [(s_, t.replace(f'[{i}]', f'[{var}]')) for s_, t in charges(v.axes[2])]
-                right = [(s_, t.replace(f'[{i} + 1]', f'[{var}]')) for s_, t in charges(v.axes[3])]
-                okl = left == [(1, b['__a']), (1, b['__b'])] and right == [(-1, b['__a']), (-1, b['__b'])] and \
-                    norm(lp.iter) == 'range(L + 1)' and norm(lab[0].targets[0]) == f'{resn}.qD[{var}]'
-                detail = f'labels flatten([{b["__a"]}, {b["__b"]}]); merged legs {left} / {right}'
+        # labels: every store into <result>.qD[.], wherever it sits, with the stored expression resolved through locals
+        from ..affine import Affine
+        stores = label_stores(fi.node, resn)
+        okl = bool(stores) and v.rank == 4
+        detail = []
+        for st_, lo_, hi_, bvar, val in stores:
+            b = (pmatch('qnumber_flatten([__a, __b])', val) or pmatch('qnumber_flatten((__a, __b))', val)) if val is not None \
+                else None
+            if b is None or lo_ is None:
+                okl = False
+                detail.append(f'`{norm(st_)[:60]}`: stored label not resolved to a qnumber_flatten of two operand labels')
+                continue
+            k = bvar if bvar else str(lo_)
+            left = [(s_, t.replace(f'[{i}]', f'[{k}]')) for s_, t in charges(v.axes[2])]
+            right = [(s_, t.replace(f'[{i} + 1]', f'[{k}]')) for s_, t in charges(v.axes[3])]
+            good = left == [(1, b['__a']), (1, b['__b'])] and right == [(-1, b['__a']), (-1, b['__b'])]
+            okl = okl and good
+            detail.append(f'bonds [{lo_}, {hi_}]: flatten([{b["__a"]}, {b["__b"]}]) vs merged legs {left} / {right}')
+        ivs = [(lo_, hi_) for _, lo_, hi_, _, _ in stores if lo_ is not None]
+        Ls = Affine.sym('L')
+        zero, one = Affine.const(0), Affine.const(1)
+        cov1 = covers(ivs, zero, Ls, [Ls - one])
+        cov0 = covers([(a.subst('L', zero), b.subst('L', zero)) for a, b in ivs
+                       if (b.subst('L', zero) - a.subst('L', zero)).is_const() and (b.subst('L', zero) - a.subst('L', zero)).c >= 0],
+                      zero, zero, [])
+        if not (cov0 and cov1):
+            detail.append('the stores do not cover every bond 0..L' + ('' if cov0 else ' (no sites: bond 0 keeps the placeholder)'))
         chk.ob(rid, w, 'multiply_mpo: bond labels are flattened in the order in which the bond legs are merged (op0 first), '
-               'one label per bond 0..L', okl, detail, key=f'{rid}|multiply|labels')
+               'one label per bond 0..L', okl and cov0 and cov1, '; '.join(detail)[:400], key=f'{rid}|multiply|labels')
         n += 3
     return n
 
